@@ -14,6 +14,7 @@ import (
 	"k8s.io/apimachinery/pkg/apis/meta/v1/unstructured"
 	"k8s.io/apimachinery/pkg/runtime"
 	"k8s.io/apimachinery/pkg/types"
+	"sigs.k8s.io/controller-runtime/pkg/reconcile"
 
 	"github.com/crossplane/crossplane/verifsim/kit"
 	"github.com/crossplane/crossplane/verifsim/runner"
@@ -93,6 +94,11 @@ func (prop) Run(t *testing.T, s *sim.Sim, res *runner.Result) {
 				}
 			}
 			w.Store.OnLog = append(w.Store.OnLog, st.onLog)
+			w.OnClaimDone = func(key types.NamespacedName, tk *sim.Task, startSeq int, _ reconcile.Result, err error) {
+				if err == nil && tk.Normal && len(tk.FaultSteps) == 0 {
+					st.judgeExactCopy(key, tk, startSeq)
+				}
+			}
 			res.Counters[fmt.Sprintf("xrd-filter-%d-keys", len(st.filter))]++
 		},
 		Env: func(w *xrworld.W, wl *xrworld.Workload) []sim.Action {
@@ -141,9 +147,16 @@ func (prop) Run(t *testing.T, s *sim.Sim, res *runner.Result) {
 						if m := w.Store.Peek(k); m != nil {
 							_ = w.Direct.Delete(ctx, &unstructured.Unstructured{Object: runtime.DeepCopyJSON(m)})
 						}
-						sec := secret(ns, n, "connection.crossplane.io/v1alpha1", nil, map[string]string{"leftover": "bGVmdA==", "user": "c29tZW9uZQ=="})
+						var owner map[string]any
+						what := "uncontrolled-connection-secret-at-xr-secret-name"
+						if s.Tape.Next(3) == 0 {
+							// ... or one controlled by another object that happens to have the XR's name
+							owner = map[string]any{"apiVersion": "example.org/v1", "kind": "XOther", "name": xr.GetName(), "uid": "namesake-uid", "controller": true}
+							what = "connection-secret-of-a-namesake-at-xr-secret-name"
+						}
+						sec := secret(ns, n, "connection.crossplane.io/v1alpha1", owner, map[string]string{"leftover": "bGVmdA==", "user": "c29tZW9uZQ=="})
 						if w.Direct.Create(ctx, sec) == nil {
-							w.S.Probe("uncontrolled-connection-secret-at-xr-secret-name")
+							w.S.Probe(what)
 						}
 					}})
 				}
@@ -176,6 +189,63 @@ func (prop) Run(t *testing.T, s *sim.Sim, res *runner.Result) {
 			}
 		},
 	})
+}
+
+// judgeExactCopy: after a claim reconcile that ran to the end, the claim's
+// secret is an exact copy of the XR's secret as that reconcile read it - keys
+// the XR's secret no longer has are gone from the copy as well.
+func (st *state) judgeExactCopy(key types.NamespacedName, tk *sim.Task, startSeq int) {
+	w := st.w
+	var src, dst, xr map[string]any
+	var dstKey simapi.ObjKey
+	for _, e := range w.Store.Log[startSeq:] {
+		if e.TaskID != tk.ID {
+			// somebody else wrote one of the secrets meanwhile: nothing definite to compare
+			if !e.Read && e.Err == nil && e.Injected == "" && e.Key.Kind == "Secret" && e.Key.Group == "" {
+				return
+			}
+			continue
+		}
+		if e.Err != nil || e.Injected != "" || e.DryRun || e.After == nil {
+			continue
+		}
+		if e.Key.Kind == xrworld.XRGVK.Kind && e.Read && xr == nil {
+			xr = e.After
+		}
+	}
+	cm := w.Store.Peek(simapi.ObjKey{Group: xrworld.ClaimGVK.Group, Kind: xrworld.ClaimGVK.Kind, NS: key.Namespace, Name: key.Name})
+	if cm == nil || xr == nil || (&unstructured.Unstructured{Object: cm}).GetDeletionTimestamp() != nil {
+		return
+	}
+	dn, _, _ := unstructured.NestedString(cm, "spec", "writeConnectionSecretToRef", "name")
+	sns, _, _ := unstructured.NestedString(xr, "spec", "writeConnectionSecretToRef", "namespace")
+	sn, _, _ := unstructured.NestedString(xr, "spec", "writeConnectionSecretToRef", "name")
+	if dn == "" || sn == "" {
+		return
+	}
+	dstKey = simapi.ObjKey{Kind: "Secret", NS: key.Namespace, Name: dn}
+	for _, e := range w.Store.Log[startSeq:] {
+		if e.TaskID != tk.ID || e.Err != nil || e.Injected != "" || e.DryRun || e.After == nil || e.Key.Kind != "Secret" {
+			continue
+		}
+		if e.Key.Name == sn && e.Key.NS == sns && e.Read {
+			src = e.After
+		}
+		if e.Key == dstKey {
+			dst = e.After
+		}
+	}
+	if src == nil || dst == nil {
+		return // the reconcile did not get as far as propagating
+	}
+	if controllerUID(src) != (&unstructured.Unstructured{Object: xr}).GetUID() || controllerUID(dst) != (&unstructured.Unstructured{Object: cm}).GetUID() {
+		return
+	}
+	if !reflect.DeepEqual(data(src), data(dst)) {
+		w.S.Violate("C09/claim-secret-not-an-exact-copy", fmt.Sprintf("claim %s finished a reconcile that read its XR's secret as %v, but its own secret holds %v", key, data(src), data(dst)))
+		return
+	}
+	w.S.Probe("claim-secret-exact-copy-checked")
 }
 
 func secret(ns, name, typ string, owner map[string]any, data map[string]string) *unstructured.Unstructured {
@@ -282,7 +352,19 @@ func (st *state) judgeXRSecretWrite(e *simapi.LogEntry, xrName string) {
 		return
 	}
 	if c := controllerUID(e.Before); c != "" && c != xrUID {
-		w.S.Violate("C09/xr-wrote-foreign-secret", fmt.Sprintf("reconcile of XR %s wrote secret %s/%s, which another owner controls", xrName, ns, n))
+		sig := "C09/xr-wrote-foreign-secret"
+		// did the secret look like the XR's own (or absent, or uncontrolled) when
+		// this reconcile last read it, and was it swapped before the write?
+		for i := len(w.Store.Log) - 1; i >= 0; i-- {
+			l := w.Store.Log[i]
+			if l.TaskID == e.TaskID && l.Seq < e.Seq && l.Read && l.Verb == "get" && l.Key == e.Key && l.Injected == "" {
+				if rc := controllerUID(l.After); l.After == nil || rc == "" || rc == xrUID {
+					sig += "/replaced-after-this-reconcile-read-it"
+				}
+				break
+			}
+		}
+		w.S.Violate(sig, fmt.Sprintf("reconcile of XR %s wrote secret %s/%s, which another owner controls", xrName, ns, n))
 		return
 	}
 	// what did the composition produce in this reconcile?
